@@ -176,8 +176,8 @@ def run_driver(drv, behaviours, workdir, tag="p", fail=None, timeout=1800):
     try:
         for x in open(io):
             if '"n":' in x:
-                d = json.loads(x)
-                run_driver.io_events.append((d["n"], d["tgt"], d["e"], d.get("fail", 0)))
+                rec = json.loads(x)
+                run_driver.io_events.append((rec["n"], rec["tgt"], rec["e"], rec.get("fail", 0)))
     except (OSError, ValueError):
         pass
     for fn in ("dev.img", "dev.img.e2undo", "io.ndjson"):
@@ -280,7 +280,7 @@ def model_check_cache(ev, vd, tier, work):
     for label, over, cfgs, tmo in runs:
         cfg = mc_cfg(work, hashlib.sha1(label.encode()).hexdigest()[:8], over, cfgs)
         jobs.append((label, cfg, dict(workers=2, timeout=tmo, xmx="3g")))
-    nsim, depth = (40, 40) if tier == "quick" else (600, 50)      # per worker; measured: ~0.4 behaviours/s/worker at the real constants
+    nsim, depth = (32, 40) if tier == "quick" else (600, 50)      # per worker; measured: ~0.4 behaviours/s/worker at the real constants
     simw = 4 if tier == "quick" else 8
     simcfg = mc_cfg(work, "sim", dict(K=8, D=4, NG=16, BlkSizes="{1,2}", NegSizes="{1,3,5}", ByteLens="{1,2}", MaxW=4, MaxFaults=2,
                                       Toggle="TRUE", ZeroFail="TRUE"), "CfgAll", simulate=True)
@@ -310,6 +310,56 @@ def model_check_cache(ev, vd, tier, work):
                 die_broken("vacuity guard: UnixIoCache with %s does not violate the property (%s / %s)" % (dev, r.violated, r.error))
             ev.cov.setdefault("deviating_models_rejected", []).append("%s -> %s after %d states" % (dev, r.violated, r.distinct))
     ev.cov["exhaustive"] = True
+
+
+def model_check_stacked(ev, vd, tier, work):
+    """StackedIo (undo_io around the unix channel): exhaustive runs with failures of the device only, of the undo file only
+    (and of both in the thorough tier), and the vacuity guard (a wrapper that drops the result of the real flush / of the real write)."""
+    import concurrent.futures as cf
+    mod = os.path.join(SPEC, "MC_StackedIo.tla")
+    HEAD_IGN = '{"setup.ublk", "setup.rd", "ix.sb1", "ix.sb2", "cl.ufile"}'
+    base = dict(NG=2, K=2, D=1, InitBS=1, DevInvalSkipsClean="FALSE", DevZeroBypassesCache="FALSE", DevWriteEvictErrLost="FALSE", TogglePre="TRUE",
+                SBG=1, IgnoredSites=HEAD_IGN, BlkSizes="{1}", NegSizes="{1}", ByteLens="{1}", MaxW=2, MaxFaults=0, MaxUFaults=0, MaxSave=1, ZeroOps='{"zero"}')
+    inv = ["Coherent", "DurableAfterFlush", "ErrorReported", "Refines", "NoDupSlots", "LruWellFormed",
+           "OuterCoherent", "OuterDurable", "OuterLogical", "OuterErrorReported", "OuterCloseClean", "OuterRetAsSpecified"]
+
+    def cfgfile(name, over, cfgs="CfgFault"):
+        c = dict(base); c.update(over)
+        path = os.path.join(work, "MCS_%s.cfg" % name)
+        with open(path, "w") as f:
+            f.write("\n".join(["SPECIFICATION MCSpec", "CONSTANTS"] + ["  %s = %s" % kv for kv in c.items()] + ["  Cfgs <- %s" % cfgs, "VIEW MCView"]
+                              + ["INVARIANT %s" % i for i in inv] + ["CHECK_DEADLOCK FALSE"]) + "\n")
+        return path
+    if tier == "quick":
+        runs = [("the device fails, the undo file is fine; with and without handler, K=2 D=1 NG=2", dict(MaxFaults=1), "CfgFault", 900),
+                ("the undo file fails, the device is fine; K=2 D=1 NG=2", dict(MaxUFaults=1), "CfgFault", 900)]
+    else:
+        runs = [("the device fails, the undo file is fine; with and without handler, K=2 D=1 NG=3, zeroout and discard, 2 save reads per call",
+                 dict(NG=3, MaxFaults=1, MaxSave=2, ZeroOps='{"zero", "discard"}'), "CfgFault", 2400),
+                ("the undo file fails, the device is fine; K=2 D=1 NG=3", dict(NG=3, MaxUFaults=1, MaxSave=2, ZeroOps='{"zero", "discard"}'), "CfgFault", 2400),
+                ("device and undo file fail; K=2 D=1 NG=2", dict(MaxFaults=1, MaxUFaults=1), "CfgFault", 2400),
+                ("block sizes {1,2} (write_undo_indexes really switches the block size), the device fails; K=2 D=1 NG=4",
+                 dict(NG=4, BlkSizes="{1, 2}", NegSizes="{1, 3}", MaxFaults=1), "CfgFault", 2400),
+                ("write-through, the device fails; K=2 D=1 NG=2", dict(MaxFaults=1), "CfgWt", 1800)]
+    guard = cfgfile("ign_flush", dict(MaxFaults=1, IgnoredSites=HEAD_IGN[:-1] + ', "fl.real"}'))
+    guard2 = cfgfile("ign_write", dict(MaxFaults=1, IgnoredSites=HEAD_IGN[:-1] + ', "ap.write"}'))
+    with cf.ThreadPoolExecutor(max_workers=4) as ex:
+        futs = [(label, ex.submit(T.tlc, mod, cfgfile(hashlib.sha1(label.encode()).hexdigest()[:8], over, cfgs), workers=2, timeout=tmo, xmx="3g"))
+                for label, over, cfgs, tmo in runs]
+        gfuts = [("fl.real", ex.submit(T.tlc, mod, guard, workers=1, timeout=600, xmx="2g")),
+                 ("ap.write", ex.submit(T.tlc, mod, guard2, workers=1, timeout=600, xmx="2g"))]
+        for label, fu in futs:
+            r = fu.result()
+            ev.add_tlc(r, "StackedIo: " + label)
+            if r.violated:
+                vd.violation("model:StackedIo:" + r.violated, "StackedIo (%s): %s violated -- design-level counterexample" % (label, r.violated), {"tlc_tail": r.out[-6000:]})
+            elif not r.ok:
+                die_broken("TLC failed on MC_StackedIo (%s): %s\n%s" % (label, r.error, r.out[-1500:]))
+        for site, fu in gfuts:
+            r = fu.result()
+            if r.violated not in ("OuterDurable", "OuterErrorReported", "OuterCloseClean", "OuterLogical"):
+                die_broken("vacuity guard: StackedIo with the result of %s dropped does not violate the property (%s / %s)" % (site, r.violated, r.error))
+            ev.cov.setdefault("deviating_models_rejected", []).append("StackedIo IgnoredSites + %s -> %s after %d states" % (site, r.violated, r.distinct))
 
 
 # ------------------------------------------------------------------------------------------------ conformance
@@ -389,25 +439,83 @@ def outer_windows(tl):
 def validate_and_report(vd, ev, behaviours, traces, work, what, literal=False):
     mod = os.path.join(SPEC, "Trace_UnixIoCache.tla")
     cfg = os.path.join(SPEC, "Trace_UnixIoCache_literal.cfg" if literal else "Trace_UnixIoCache.cfg")
-    res = tracecheck.validate(traces, mod, cfg, work, chunk_lines=2500, jobs=WORKERS, timeout=1200)
+    res = validate_capped(traces, mod, cfg, work, chunk_lines=2500, jobs=WORKERS, timeout=1200)
     if res["broken"]:
         die_broken("TLC failed on a trace chunk (%s): %s\n%s" % (what, res["broken"][0]["error"], res["broken"][0]["out_tail"][-1500:]))
     ev.cov["states"] += res["distinct"]; ev.cov["transitions"] += res["generated"]
     nfail = 0
-    for f in res["failures"]:
-        bi = f["behaviour"]
+    for bi in res["failures"]:
         rej, matched, inv, tail, _ = tracecheck.confirm(traces[bi], mod, cfg, work)
         if not rej:
             continue
         nfail += 1
         k = matched if matched is not None else 0
+        if inv and k > 0:
+            k -= 1                      # the state after line k-1 violates the invariant
         line = traces[bi][k] if k < len(traces[bi]) else "(end)"
-        opname = json.loads(line)["e"] if line != "(end)" else "?"
+        d = json.loads(line) if line != "(end)" else {}
+        opname = (d.get("e", "?") + (":" + d["op"] if "op" in d else "")) if d else "?"
         whatv = ("invariant %s violated" % inv) if inv else "trace rejected"
         vd.violation("%s@%s" % (whatv, opname), "%s (%s) at line %d of behaviour %d: %s" % (whatv, what, k, bi, line[:400]),
                      {"ops": behaviours[bi]["ops"], "fail": behaviours[bi].get("fail"), "trace": traces[bi], "first_unmatched_line": k,
                       "tlc_tail": tail[-1500:]})
-    return len(traces) - nfail
+    return len(traces) - nfail - res["unchecked"]
+
+
+def check_undo_lines(b, tl, what):
+    """Instrumentation completeness of a history on the wrapper: every operation gives reset/open, o_begin..o_end or skip."""
+    n = sum(1 for x in tl if x.startswith(('{"e":"reset"', '{"e":"open"', '{"e":"o_end"', '{"e":"skip"')))
+    nb = sum(1 for x in tl if x.startswith('{"e":"o_begin"'))
+    ne = sum(1 for x in tl if x.startswith('{"e":"o_end"'))
+    if n != len(b["ops"]) or nb != ne:
+        die_broken("instrumentation incomplete (%s): %d operations, %d accounted for, %d o_begin / %d o_end" % (what, len(b["ops"]), n, nb, ne))
+
+
+def stacked_faults(ev, vd, tier, work, drv, rng):
+    """Histories on the undo_io wrapper with injected write failures: one fault position per cell <<entry point, store hit
+    first>> of the specification's catalogue (round-robin over the cells and the undo configurations)."""
+    cat = stacked_catalogue(work)
+    cells = sorted((c["op"], c["store"]) for c in cat["cells"])
+    rounds, nops = (3, 18) if tier == "quick" else (24, 30)
+    counts = [2, 3, 1]           # consecutive failing write-class calls: 2 = a pwrite and its write(2) retry, i.e. exactly one failed raw write
+    behaviours, traces = [], []
+    covered, unreached, hit = {}, {}, {}
+    for r in range(rounds):
+        for ci, cell in enumerate(cells):
+            found = None
+            for attempt in range(4):
+                cfg = UNDO_ORDER[(r + ci + attempt) % len(UNDO_ORDER)]
+                ops = gen_behaviour(rng, cfg, nops, favor=cell[0])
+                l0, e0 = run_driver(drv, [ops], work, "s0")
+                if e0:
+                    vd.violation("crash", "library crashed/aborted on a legal history (undo_io): " + e0[:200], {"ops": ops}); return
+                store = {0: "dev", 1: "undo"}
+                cand = [n for (op, a, z) in outer_windows(l0) if op == cell[0]
+                        for (n, tgt, e, fl) in run_driver.io_events
+                        if a <= n <= z and store.get(tgt) == cell[1] and e in ("write", "pwrite", "pwritev", "fallocate")]
+                if cand:
+                    found = (ops, rng.choice(cand)); break
+            key = "%s:%s" % cell
+            if not found:
+                unreached[key] = unreached.get(key, 0) + 1
+                continue
+            ops, at = found
+            cnt = counts[r % len(counts)]
+            l1, e1 = run_driver(drv, [ops], work, "s1", fail=(at, cnt))
+            if e1:
+                vd.violation("crash", "library crashed/aborted under an injected write failure (undo_io): " + e1[:200], {"ops": ops, "fail": [at, cnt]}); return
+            b = {"cfg": cfg, "ops": ops, "fail": [at, cnt], "cell": key}
+            check_undo_lines(b, l1, "faulty history on the wrapper")
+            behaviours.append(b); traces.append(l1)
+            covered[key] = covered.get(key, 0) + 1
+            st = sorted({("dev", "undo")[tgt] for (n, tgt, e, fl) in run_driver.io_events if fl})
+            hk = "+".join(st) + " fails" if st else "nothing failed"
+            hit[hk] = hit.get(hk, 0) + 1
+    ev.cov["stacked_fault_catalogue"] = {"cells": len(cells), "nested_call_sites": len(cat["rsites"]) + len(cat["usites"]), "ignored_sites": sorted(cat["ignored"])}
+    ev.cov["stacked_fault_behaviours_per_cell"] = covered
+    ev.cov["stacked_fault_cells_without_a_write_in_4_histories"] = sorted(k for k in unreached if k not in covered)
+    ev.cov["stacked_fault_runs_by_store_that_failed"] = hit
+    return behaviours, traces
 
 
 def conformance_cache(ev, vd, tier, work, drv):
@@ -433,13 +541,10 @@ def conformance_cache(ev, vd, tier, work, drv):
     if len(tb) != len(plain):
         die_broken("instrumentation incomplete: %d behaviours logged, %d issued" % (len(tb), len(plain)))
     for i, (b, tl) in enumerate(zip(plain, tb)):
-        n_inner = sum(1 for x in tl if not x.startswith('{"e":"o_'))
-        n_outer = len(tl) - n_inner
-        want = len(b["ops"])
-        if (CONFIGS[b["cfg"]]["undo"] and n_outer != want - 2 - b["ops"].count("open") + 1) and False:
-            pass
-        if not CONFIGS[b["cfg"]]["undo"] and len(tl) != want:
-            die_broken("instrumentation incomplete: behaviour %d logged %d of %d lines" % (i, len(tl), want))
+        if CONFIGS[b["cfg"]]["undo"]:
+            check_undo_lines(b, tl, "behaviour %d" % i)
+        elif len(tl) != len(b["ops"]):
+            die_broken("instrumentation incomplete: behaviour %d logged %d of %d lines" % (i, len(tl), len(b["ops"])))
     # --- with injected device write failures: one process per behaviour (iotrace.so counts per process)
     faulty, ftraces = [], []
     for i in range(nfault):
@@ -459,11 +564,17 @@ def conformance_cache(ev, vd, tier, work, drv):
         faulty.append({"cfg": cfg, "ops": ops, "fail": [at, cnt]}); ftraces.append(l1)
         if len(l1) != len(ops):
             die_broken("instrumentation incomplete: faulty behaviour %d logged %d of %d lines" % (i, len(l1), len(ops)))
+    # --- histories on the undo_io wrapper with failures at the device / at the undo file
+    sf = stacked_faults(ev, vd, tier, work, drv, random.Random(seed() + 4711))
+    if sf is None:
+        return
+    sbeh, straces = sf
     ok1 = validate_and_report(vd, ev, plain, tb, work, "no faults")
     ok2 = validate_and_report(vd, ev, faulty, ftraces, work, "injected write failures")
-    ev.cov["traces_validated_against_impl"] += ok1 + ok2
-    ev.cov["evaluations"] += len(tb) + len(ftraces)
-    ev.cov["trace_lines_validated"] = sum(len(t) for t in tb) + sum(len(t) for t in ftraces)
+    ok3 = validate_and_report(vd, ev, sbeh, straces, work, "undo_io wrapper, injected write failures")
+    ev.cov["traces_validated_against_impl"] += ok1 + ok2 + ok3
+    ev.cov["evaluations"] += len(tb) + len(ftraces) + len(straces)
+    ev.cov["trace_lines_validated"] = sum(len(t) for t in tb) + sum(len(t) for t in ftraces) + sum(len(t) for t in straces)
     nrep = 0
     fkinds = {}
     for t in ftraces:
@@ -475,8 +586,27 @@ def conformance_cache(ev, vd, tier, work, drv):
                 fkinds[k] = fkinds.get(k, 0) + 1
     ev.cov["calls_with_failed_device_write_attempts"] = nrep
     ev.cov["failed_attempts_by_call_and_report"] = fkinds
+    # outer calls of the wrapper that met a failing nested call, by entry point and by how the caller learnt of it
+    okinds = {}
+    for t in straces:
+        cur = None
+        for ln in t:
+            d = json.loads(ln)
+            if d["e"] == "o_begin":
+                cur = {"op": d["op"], "dev": False, "undo": False, "hb": False}
+            elif cur is not None and d["e"] == "o_end":
+                if cur["dev"] or cur["undo"]:
+                    k = "%s:%s:%s" % (cur["op"], "+".join(x for x in ("dev", "undo") if cur[x]), "retval" if d["ret"] else "handler" if cur["hb"] else "retried")
+                    okinds[k] = okinds.get(k, 0) + 1
+                cur = None
+            elif cur is not None and d["e"].startswith("u_"):
+                cur["undo"] = cur["undo"] or (d["ret"] != 0 and d["e"] != "u_read")
+            elif cur is not None:
+                cur["dev"] = cur["dev"] or any(x[0] == 1 and x[3] == 1 for x in d.get("ev", []))
+                cur["hb"] = cur["hb"] or bool(d.get("hb"))
+    ev.cov["wrapper_calls_with_failed_nested_writes_by_entry_store_report"] = okinds
     by_cfg = {}
-    for b, tl in list(zip(plain, tb)) + list(zip(faulty, ftraces)):
+    for b, tl in list(zip(plain, tb)) + list(zip(faulty, ftraces)) + list(zip(sbeh, straces)):
         by_cfg[b["cfg"]] = by_cfg.get(b["cfg"], 0) + 1
         if nontrivial(tl):
             ev.nontrivial(hashlib.sha1(("\n".join(b["ops"]) + str(b.get("fail"))).encode()).hexdigest())
@@ -484,6 +614,8 @@ def conformance_cache(ev, vd, tier, work, drv):
     ev.sample({"configuration": plain[0]["cfg"], "ops": plain[0]["ops"][:14], "first_trace_lines": [json.loads(x) for x in tb[0][:3]]})
     if faulty:
         ev.sample({"configuration": faulty[0]["cfg"], "fail_write_nth_count": faulty[0]["fail"], "ops": faulty[0]["ops"][:14]})
+    if sbeh:
+        ev.sample({"configuration": sbeh[0]["cfg"], "fault_cell": sbeh[0]["cell"], "fail_write_nth_count": sbeh[0]["fail"], "ops": sbeh[0]["ops"][:14]})
 
 
 # ------------------------------------------------------------------------------------------------ thread part
@@ -654,18 +786,19 @@ def fail_cell(t):
 
 def validate_threads(vd, ev, behaviours, meta, work):
     mod = os.path.join(SPEC, "Trace_BitmapLoad.tla"); cfg = os.path.join(SPEC, "Trace_BitmapLoad.cfg")
-    res = tracecheck.validate(behaviours, mod, cfg, work, chunk_lines=4000, jobs=WORKERS, timeout=1200)
+    res = validate_capped(behaviours, mod, cfg, work, chunk_lines=4000, jobs=WORKERS, timeout=1200)
     if res["broken"]:
         die_broken("TLC failed on a BitmapLoad trace chunk: %s\n%s" % (res["broken"][0]["error"], res["broken"][0]["out_tail"][-1500:]))
     ev.cov["states"] += res["distinct"]; ev.cov["transitions"] += res["generated"]
-    nfail = 0
-    for f in res["failures"]:
-        bi = f["behaviour"]
+    nfail = res["unchecked"]
+    for bi in res["failures"]:
         rej, matched, inv, tail, _ = tracecheck.confirm(behaviours[bi], mod, cfg, work)
         if not rej:
             continue
         nfail += 1
         k = matched if matched is not None else 0
+        if inv and k > 0:
+            k -= 1
         line = behaviours[bi][k] if k < len(behaviours[bi]) else "(end)"
         opname = json.loads(line)["e"] if line != "(end)" else "?"
         whatv = ("invariant %s violated" % inv) if inv else "trace rejected"
@@ -724,10 +857,13 @@ def conformance_threads(ev, vd, tier, work, b, drv):
         if not cls:
             continue
         if tier == "quick":
-            for c in ("first", "middle", "last"):
-                if c in cls:
-                    rot += 1
-                    plan.append((im, [(kinds[rot % len(kinds)], rng.choice(sorted(cls[c])))], yields[rot % len(yields)]))
+            want = [c for c in ("first", "middle", "last") if c in cls]
+            if im[4] > 16:                      # the big images cost the most trace lines: one position class each (rotating)
+                rot += 1
+                want = [want[rot % len(want)]]
+            for c in want:
+                rot += 1
+                plan.append((im, [(kinds[rot % len(kinds)], rng.choice(sorted(cls[c])))], yields[rot % len(yields)]))
             if "first" in cls and "last" in cls:
                 rot += 1
                 plan.append((im, [(kinds[rot % len(kinds)], rng.choice(sorted(cls["last"]))), (kinds[(rot // 2) % len(kinds)], rng.choice(sorted(cls["first"])))],
@@ -796,21 +932,35 @@ def run(tier):
         except RuntimeError as e:
             die_broken(str(e))
         model_check_cache(ev, vd, tier, work)
+        model_check_stacked(ev, vd, tier, work)
         conformance_cache(ev, vd, tier, work, drv)
         model_check_threads(ev, vd, tier, work)
         conformance_threads(ev, vd, tier, work, b, bml)
         ev.cov["rule"] = ("cache: seeded histories of ~%d calls over 10 channel configurations on a 24 KiB backing file (granule 512 B; block sizes 1k/2k/4k; "
                           "counts 1..6 and byte-count form; write_byte, zeroout, discard, readahead, flush, close/reopen, cache off/on around read-only phases), "
                           "about a quarter of them with 1..4 consecutive failing write(2)/pwrite(2) calls; non-trivial = >=1 dirty eviction and >=1 cache-bypassing "
-                          "call overlapping a cached block; distinct by operation sequence + fault") % (36 if tier == "quick" else 45)
+                          "call overlapping a cached block; distinct by operation sequence + fault.  undo_io wrapper: histories of ~%d calls with one fault "
+                          "position per cell <<entry point, store hit first>> of StackedIo!FaultCells (Emit_StackedIo), 1-3 consecutive failing write-class calls.  "
+                          "threads: images of 1..40 groups x 4 feature variants x thread counts 2,3,4,7,16 under schedule perturbation, plus damaged images from "
+                          "BitmapLoad!FailPos x DamageKinds (Emit_BitmapLoad); non-trivial = >= 2 threads really overlapping in time") % (
+                          36 if tier == "quick" else 45, 18 if tier == "quick" else 30)
         ev.cov["checker_cmd"] = ("tlc -config MC_*.cfg spec/MC_UnixIoCache.tla; TRACE=<chunk> tlc -workers 1 -config spec/Trace_UnixIoCache.cfg spec/Trace_UnixIoCache.tla "
-                                 "(POSTCONDITION TraceAccepted; INVARIANT Coherent DurableAfterFlush ErrorReported Refines NoDupSlots LruWellFormed; PROPERTY RefinesIo)")
+                                 "(POSTCONDITION TraceAccepted; INVARIANT Coherent DurableAfterFlush ErrorReported Refines NoDupSlots LruWellFormed "
+                                 "OuterCoherent OuterDurable OuterLogical OuterErrorReported OuterCloseClean OuterRetAsSpecified; PROPERTY RefinesIo); "
+                                 "tlc -config MCS_*.cfg spec/MC_StackedIo.tla; tlc spec/BitmapLoad.tla; TRACE=<chunk> tlc -workers 1 -config spec/Trace_BitmapLoad.cfg spec/Trace_BitmapLoad.tla")
         ev.assumptions = [
             "offsets and sizes are multiples of 512 bytes and stay inside the backing file (short reads at end of file are not part of the universe)",
             "content-changing calls are not issued while the cache is switched off by set_option(cache=off) after it held entries; the only in-tree user (rw_bitmaps.c) "
             "brackets a read-only phase with the toggle (DESIGN section 7 row 3 is treated as outside the property's configurations; TLC shows the incoherence without this precondition)",
             "a failed device write is injected as EIO without partial effect (iotrace.so); after a reported failure the content of the affected granules is unspecified until rewritten",
             "the channel is used by one thread in the cache part; CHANNEL_FLAGS_WRITETHROUGH, the write_error handler and the offset are set once right after open",
+            "undo_io wrapper: the content of the undo file is property C12's subject, here a call on the undo file's channel is an event with a return code; "
+            "after a set_blksize on the undo channel that returned an error (the wrapper then has a block size the real channel does not have) the caller sets the "
+            "block size again before it addresses blocks; a device write attempt that failed and was repeated successfully later in the same call of the wrapper "
+            "is not a failed write of that call",
+            "threads: a damaged group gets its BLOCK_UNINIT / INODE_UNINIT flags cleared (and its bitmaps written) first so that the loader reads them; an unreadable bitmap "
+            "block is produced by a pass-through I/O manager that refuses that block (EIO) or by truncating the image; the tail-problem flags are compared with the "
+            "single-threaded load by the driver",
             "regular backing file: zeroout/discard use fallocate (ZERO_RANGE/PUNCH_HOLE), discard zeroes data (CHANNEL_FLAGS_DISCARD_ZEROES); block devices (BLKDISCARD, BLKROGET) are not reachable in the sandbox",
         ]
         return vd.finish()
@@ -823,7 +973,29 @@ def replay(path):
     rp = d["replay"]
     work = fast_tmp()
     try:
-        b = build.build(); drv = build.driver(b, "iodrv")
+        b = build.build()
+        if "meta" in rp:                     # thread part: rebuild the image, repeat the loads
+            m = rp["meta"]; env = tool_env(b)
+            v = next((x for x in IMG_VARIANTS if x[0] == m["image"]), None)
+            if v is None:
+                print("unknown image variant in the replay artefact"); return 1
+            imgdir = os.path.join(work, "img"); os.makedirs(imgdir, exist_ok=True)
+            img, why = make_image(b, env, imgdir, v[0], v[1], v[2], m["groups"])
+            if img is None:
+                print("cannot rebuild the image: %s" % why); return 1
+            ev = Evidence(PID, "replay", "model_checking"); vd = Verdict(PID, ev)
+            tb = run_bmload(vd, build.driver(b, "bmload"), env, work, img, m.get("yield", 0), 1, v[0], m["groups"], bad=m.get("badtail"),
+                            damage=[tuple(x) for x in m.get("damage", [])])
+            if tb is None:
+                print("VIOLATION property=%s replay=%s (hang or crash)" % (PID, path)); return 1
+            mod = os.path.join(SPEC, "Trace_BitmapLoad.tla"); cfg = os.path.join(SPEC, "Trace_BitmapLoad.cfg")
+            for t in tb:
+                rej, matched, inv, tail, _ = tracecheck.confirm(t, mod, cfg, work)
+                if rej:
+                    print("first unmatched line %s: %s" % (matched, t[matched][:300] if matched is not None and matched < len(t) else "?"))
+                    print("VIOLATION property=%s replay=%s" % (PID, path)); return 1
+            print("replay accepted"); return 0
+        drv = build.driver(b, "iodrv")
         if "ops" not in rp:
             print("replay artefact has no operation history (model-level finding): see tlc_tail"); return 1
         fail = tuple(rp["fail"]) if rp.get("fail") else None
